@@ -220,6 +220,9 @@ CATALOGUE = [
     # ---- wave 8 ----
     ('C12', 'c12-fast-hop-no-isolation', CP, '        # Phase 1: Try to find a path through existing relays\n        existing_path = self._find_path_through_existing_relays(', '        hop = self.find_relay_near(((source_pos[0] + sink_pos[0]) / 2.0, (source_pos[1] + sink_pos[1]) / 2.0), self.relay_search_radius)\n        if hop is not None and math.dist(hop.position, source_pos) <= self.span_limit and math.dist(hop.position, sink_pos) <= self.span_limit:\n            hop.add_network(network_id, wire_color)\n            return [(hop.entity_id, wire_color)]\n\n        # Phase 1: Try to find a path through existing relays\n        existing_path = self._find_path_through_existing_relays(', 1, 'fire', 'recorded only on a pole'),
     ('C12', 'c12-fast-hop-tested-benign', CP, '        # Phase 1: Try to find a path through existing relays\n        existing_path = self._find_path_through_existing_relays(', '        hop = self.find_relay_near(((source_pos[0] + sink_pos[0]) / 2.0, (source_pos[1] + sink_pos[1]) / 2.0), self.relay_search_radius)\n        if hop is not None and hop.can_route_network(network_id, wire_color) and math.dist(hop.position, source_pos) <= self.span_limit and math.dist(hop.position, sink_pos) <= self.span_limit:\n            hop.add_network(network_id, wire_color)\n            return [(hop.entity_id, wire_color)]\n\n        # Phase 1: Try to find a path through existing relays\n        existing_path = self._find_path_through_existing_relays(', 1, 'silent', ''),
+    ('C11', 'c11-octal-read-as-decimal', TR, '        elif text.startswith(("0o", "0O")):\n            return int(text, 8)\n', '        elif text.startswith(("0o", "0O")):\n            return int(text, 10)\n', 1, 'fire', 'prefix 0o'),
+    ('C11', 'c11-binary-default-swapped', TR, '        elif text.startswith(("0b", "0B")):\n            return int(text, 2)\n        else:\n            return int(text, 10)\n', '        elif not text.startswith(("0b", "0B")):\n            return int(text, 2)\n        else:\n            return int(text, 10)\n', 1, 'fire', 'prefix 0b'),
+    ('C11', 'c11-binary-negative-spelling-benign', TR, '        elif text.startswith(("0b", "0B")):\n            return int(text, 2)\n        else:\n            return int(text, 10)\n', '        elif not text.startswith(("0b", "0B")):\n            return int(text, 10)\n        return int(text, 2)\n', 1, 'silent', ''),
 ]
 
 CATALOGUE = [m for m in CATALOGUE if m[3] != "PLACEHOLDER-NOT-PRESENT"]
